@@ -221,6 +221,8 @@ async fn run(plan: Plan) -> Outcome {
             }
             broker.client_bytes(&bytes);
         }
+        // garbage on the transport: nothing sensible can follow, the oracles below report it
+        if broker.malformed.is_some() { break; }
         if connections > connections_seen {
             connections_seen = connections;
             if current_generation > broker_generation { if connection_open { broker.close_connection(); } broker.open_connection(); connection_open = true; broker_generation = current_generation; }
